@@ -558,6 +558,33 @@ impl Dedup {
     }
 }
 
+/// Read-only accessors for the verification hooks (`connection/verif_hooks/dedup.rs`).
+#[cfg(quinn_rs_quinn_verif)]
+impl Dedup {
+    pub(super) fn verif_next(&self) -> u64 {
+        self.next
+    }
+    pub(super) fn verif_window(&self) -> u128 {
+        self.window
+    }
+    pub(super) fn verif_smallest_missing_in_interval(&self, l: u64, u: u64) -> Option<u64> {
+        self.smallest_missing_in_interval(l, u)
+    }
+    pub(super) fn verif_missing_in_interval(&self, l: u64, u: u64) -> bool {
+        self.missing_in_interval(l, u)
+    }
+}
+
+#[cfg(quinn_rs_quinn_verif)]
+pub(super) fn verif_dedup_window_size() -> u64 {
+    WINDOW_SIZE
+}
+
+#[cfg(quinn_rs_quinn_verif)]
+pub(super) fn verif_dedup_window_bits() -> u32 {
+    Window::BITS
+}
+
 /// Inner bitfield type
 ///
 /// Because QUIC never reuses packet numbers, this only needs to be large enough to deal with
